@@ -722,7 +722,15 @@ func (s *State) removeDeclaredClasses(
 	if err != nil {
 		return err
 	}
+	// DeclaredV0Classes is a list and may name a class twice; the lookup below reads this
+	// transaction, where the first occurrence has already deleted the class
+	seen := make(map[felt.Felt]struct{}, len(classHashes))
 	for _, cHash := range classHashes {
+		if _, ok := seen[*cHash]; ok {
+			continue
+		}
+		seen[*cHash] = struct{}{}
+
 		declaredClass, err := s.Class(cHash)
 		if err != nil {
 			return fmt.Errorf("get class %s: %v", cHash, err)
